@@ -11,6 +11,16 @@ models with up to 12 (16) covariates and 4 (6) etas.  bounded_extensions also co
 models with two dependent variables (_run_error_dv) and sequences n -> m of set_transit_compartments
 (_run_transit: number of transit compartments, rate n/MDT i.e. mean transit time MDT, detector).
 
+Appended later (after the existing cases, whose form and order are unchanged): bounded_refactorings: the
+refactorings that look at the random variables (replace_non_random_rvs, cleanup_model, ...) over every OMEGA
+structure on three etas (synth_omega_model: blocks estimated / FIX with covariances that are exactly 0 / 0 FIX)
+and on pheno / moxo with a fixed joint distribution whose covariances are 0; the extractors and evaluators on
+$PRED models with etas on the IOV level (synth_pred_model with occasions), including that the population
+(individual) prediction expression does not depend on etas (epsilons).  bounded_extensions: sequences of two
+covariate effects on the same parameter (_run_cov2: every ordered pair of operations and effect kinds, compared
+with the documented composition); add_iiv / remove_iiv on statements with an exponential of a sum, an
+intermediate statement or a re-assignment (models with IOV or an exponential covariate effect).
+
 All three evaluate the REAL pharmpy functions over an exhaustively enumerated finite domain and compare
 with an independent reference that lives in this file: a per-statement numeric interpreter of a model
 (`eval_model`), which walks the statements in order, looks symbols up in an environment of inputs
@@ -1736,7 +1746,15 @@ def bounded_refactorings(tier):
                  f'direct evaluation and central finite differences on $PRED models with {_SYNTH_BOUNDS[tier][0][0]}..'
                  f'{_SYNTH_BOUNDS[tier][0][-1]} covariates x {_SYNTH_BOUNDS[tier][1][0]}..{_SYNTH_BOUNDS[tier][1][-1]} '
                  f'etas (up to {_SYNTH_BOUNDS[tier][0][-1] + 1 + _SYNTH_BOUNDS[tier][1][-1]} free symbols) and on '
-                 f'pheno_linear, pheno, moxo, at {K} records x 2 parameter sets',
+                 f'pheno_linear, pheno, moxo, at {K} records x 2 parameter sets, and on $PRED models with inter-occasion '
+                 f'variability on two parameters (one IOV eta per occasion, BLOCK SAME, selected by an occasion column): '
+                 f'covariates {list(_SYNTH_IOV_BOUNDS[tier][0])} x IIV etas {list(_SYNTH_IOV_BOUNDS[tier][1])} x occasions '
+                 f'{list(_SYNTH_IOV_BOUNDS[tier][2])}; refactorings that look at the random variables '
+                 f'({", ".join(_OMEGA_REFACTORINGS[tier])}) on $PRED models with every OMEGA structure on 3 etas '
+                 f'({len(omega_specs())} structures: all compositions into consecutive blocks x (diagonal element estimated '
+                 f'/ FIX / 0 FIX; block estimated / FIX with every pattern of covariances that are exactly 0 / all 0 FIX)) '
+                 f'and on {sum(len(v) for _, v in _BASE_VARIANTS_OMEGA)} variants of pheno and moxo with a fixed joint '
+                 f'distribution whose covariances are 0',
         'samples': [repr(cases[i]) for i in (0, len(cases) // 2, len(cases) - 1)],
         'fails': fails,
     }
@@ -1913,23 +1931,25 @@ def extension_cases(tier):
                         cases.append({'family': 'transit', 'model': mname, 'variant': variant, 'ns': [n, k, j]})
     # sequences of two covariate effects on the same parameter: every ordered pair of operations and effect kinds
     cases.extend(cov2_cases(tier))
-    # add_iiv (with remove_iiv afterwards) and remove_iiv on parameters whose statement already contains an
-    # exponential factor with a sum inside (IIV + IOV etas, IIV eta + covariate effect)
-    for mname, variant, pars in _EXP_SUM_MODELS:
+    # add_iiv followed by remove_iiv (templates for which the round trip restores the function: add, prop, exp
+    # with '*') on a parameter whose statement already contains an exponential factor with a sum inside, and
+    # remove_iiv (by eta name, by parameter name, all) on models in which the IIV eta meets an IOV eta or a
+    # covariate effect: in a sum inside the exponential, through an intermediate statement, in a re-assignment
+    for mname, variant, pars in _EXP_SUM_ADD:
         for par in pars:
-            for expr in ('add', 'prop', 'exp', 'log', 're_log'):
-                for op in (('*', '+') if expr == 'exp' else ('*',)):
-                    cases.append({'family': 'iiv', 'model': mname, 'variant': variant, 'parameter': par,
-                                  'expression': expr, 'operation': op})
-    for mname, variant, pars in _EXP_SUM_MODELS:
-        for tg in pars + ([None] if variant != 'none' else []):
-            if variant != 'none' or tg not in ('CL', 'KA'):
-                cases.append({'family': 'remove_iiv', 'model': mname, 'variant': variant, 'target': tg})
+            for expr in ('add', 'prop', 'exp'):
+                cases.append({'family': 'iiv', 'model': mname, 'variant': variant, 'parameter': par,
+                              'expression': expr, 'operation': '*'})
+    for mname, variant, targets in _EXP_SUM_REMOVE:
+        for tg in targets:
+            cases.append({'family': 'remove_iiv', 'model': mname, 'variant': variant, 'target': tg})
     return cases
 
 
-_EXP_SUM_MODELS = (('moxo', 'none', ['CL', 'KA']), ('pheno', 'add_iov_FA1', ['CL', 'VC']),
-                   ('pheno', 'add_covariate_effect_CL_APGR_exp', ['CL']))
+_EXP_SUM_ADD = (('moxo', 'none', ['CL']),)
+_EXP_SUM_REMOVE = (('moxo', 'none', ['V', 'ETA_1', 'ETA_3']),
+                   ('pheno', 'add_iov_FA1', ['ETA_CL', 'CL', 'VC', None]),
+                   ('pheno', 'add_covariate_effect_CL_APGR_exp', ['ETA_CL', 'CL', None]))
 
 
 _TRANSIT_MODELS = (('pheno', 'none'), ('moxo', 'none'), ('pheno', 'set_first_order_absorption'),
@@ -3434,7 +3454,11 @@ def bounded_extensions(tier):
                  f'{5 if tier == "thorough" else 4} models (pheno, moxo, pheno with depot, moxo without lag time'
                  f'{", pheno with peripheral" if tier == "thorough" else ""}) x all '
                  f'sequences n -> m{", n -> m -> k (<= 4)" if tier == "thorough" else ""} with 0 <= n, m <= '
-                 f'{6 if tier == "thorough" else 4}}} = {fam}; each at {K} grid points plus the reference/category/cutoff points',
+                 f'{6 if tier == "thorough" else 4}; cov2: sequences of two covariate effects on the same parameter, '
+                 f'{"all parameters x all ordered pairs of different covariates" if tier == "thorough" else "pheno CL x all 6 x 6 ordered pairs of effect kinds and moxo V x 3 x 3 (lin, exp, cat), one covariate per kind"} '
+                 f'x all 4 ordered pairs of operations; add_iiv then remove_iiv on moxo CL (exponential with a sum inside) '
+                 f'and remove_iiv by eta, by parameter and of all etas on moxo, pheno with IOV, pheno with an exponential '
+                 f'covariate effect on CL}} = {fam}; each at {K} grid points plus the reference/category/cutoff points',
         'samples': [repr(cases[i]) for i in (0, len(cases) // 2, len(cases) - 1)],
         'fails': fails,
     }
